@@ -32,7 +32,7 @@ func genValidTimeout(t *rapid.T, form string) string {
 	case ProtoConnect:
 		return rapid.SampledFrom([]string{"1", "1000", "0", "9999999999", "86400000", "250", "0000000001", "100", "100000", "100000000", "99999", "6000000", "360000000"}).Draw(t, "timeout_connect")
 	case ProtoGRPC, ProtoGRPCWeb:
-		return rapid.SampledFrom([]string{"1S", "1000m", "0n", "99999999u", "5M", "1H", "8H", "123456n", "00000001S"}).Draw(t, "timeout_grpc")
+		return rapid.SampledFrom([]string{"1S", "1000m", "0n", "99999999u", "5M", "1H", "8H", "123456n", "00000001S", "9H", "99999999H", "480M", "481M", "28800S", "28801S"}).Draw(t, "timeout_grpc")
 	}
 	return rapid.SampledFrom([]string{"1", "0.5", "10", "3600", "0.001", "2.25", "0.1", "100", "100000", "0.0001", "6000", "360000"}).Draw(t, "timeout_rest")
 }
